@@ -27,10 +27,12 @@ Definition run_t := list (greq * igraph).
    node labels as written in the DOT sources (one per node: the harness checks they agree across graphs),
    the runs *)
 Definition case := (world * list nat * list nat * bool * list (nat * str) * list run_t *
-                    option (world * list nat * list nat))%type.
+                    option (world * list nat * list nat * list nat))%type.
 (* last component: the Spec side supplied by the generator — a world with the same entities whose relation
    fields state what the generated source declares (not what FORD derived), the entities expected to be
-   registered and those with "graph: false".  None (hand-written projects, loose generator mode): the
+   registered, those with "graph: false", and the entities the project-wide call graph has to expand
+   besides the registered ones (displayed internal procedures — per-entity proc_internals metadata
+   included — and generic bindings of displayed types, as the source metadata says).  None (hand-written projects, loose generator mode): the
    Spec side falls back to the relation read from FORD's objects. *)
 
 (* ------------------------------------------------------------------ model = implementation *)
@@ -108,9 +110,35 @@ Definition spec_succ (dl : nat -> list decl) (hidden univ : list nat) (c : gclas
 Definition spec_roots (hidden : list nat) (c : gclass) (roots : list nat) : list nat :=
   if class_nested c then roots else filter (fun y => negb (memn y hidden)) roots.
 
-Definition expected_nodes (w : world) (dl : nat -> list decl) (hidden univ : list nat) (q : greq) : list nat :=
+(* roots the Spec demands: those FORD used plus, for the project-wide call graph, the displayed
+   entities the source declares as its roots *)
+Definition demanded_roots (croots : list nat) (q : greq) : list nat :=
+  match q_class q with GCall => nd (q_roots q ++ croots) | _ => q_roots q end.
+
+Definition expected_nodes (w : world) (dl : nat -> list decl) (hidden univ croots : list nat) (q : greq) : list nat :=
   let c := q_class q in
-  spec_nodes (spec_succ dl hidden univ c) (spec_roots hidden c (q_roots q)) (q_depth w q) (max_nodes (q_limits q)).
+  spec_nodes (spec_succ dl hidden univ c) (spec_roots hidden c (demanded_roots croots q)) (q_depth w q)
+             (max_nodes (q_limits q)).
+
+(* first hop complete: every declared arrow of every (demanded, shown) root of a forward graph is drawn,
+   with its label, unless the first hop was refused by the node limit *)
+Definition hop1_complete (dl : nat -> list decl) (hidden croots : list nat) (q : greq) (i : igraph) : bool :=
+  let c := q_class q in
+  if class_inverse c then true
+  else match i_hop i with
+       | _ :: _ => true
+       | [] =>
+         (* a project-wide graph whose roots alone exceed max_nodes refuses the hop with nothing in hop_nodes *)
+         if negb (class_nested c) && opt_eqb Nat.eqb (i_trunc i) (Some 1) then true else
+         forallb (fun r =>
+           forallb (fun d =>
+             if existsb (fun rl => rel_eqb (fst rl) (fst (fst d))) (rels_of_class c)
+             then (if class_nested c then false else memn (d_target d) hidden) ||
+                  existsb (fun e => Nat.eqb (e_tail e) r && Nat.eqb (e_head e) (d_target d) &&
+                                    str_eqb (e_lab e) (snd d)) (i_edges i)
+             else true) (dl r))
+           (spec_roots hidden c (demanded_roots croots q))
+       end.
 
 (* every arrow t -> h is a declared relation "t uses / extends / contains / calls / implements / depends on h"
    with the label the source gives it *)
@@ -121,11 +149,13 @@ Definition edges_declared (dl : nat -> list decl) (c : gclass) (es : list edge) 
   forallb (fun e => arrow_declared dl c (e_tail e) (e_head e) (e_lab e)) es.
 
 (* violation of the property by one graph *)
-Definition graph_spec (w : world) (dl : nat -> list decl) (nograph univ : list nat) (q : greq) (i : igraph) : bool :=
+Definition graph_spec (w : world) (dl : nat -> list decl) (nograph univ croots : list nat) (q : greq) (i : igraph)
+  : bool :=
   let c := q_class q in
   negb (no_dangling_b (i_nodes i) (i_edges i)) ||
   negb (edges_declared dl c (i_edges i)) ||
-  negb (set_eqb (i_nodes i) (expected_nodes w dl nograph univ q)) ||
+  negb (set_eqb (i_nodes i) (expected_nodes w dl nograph univ croots q)) ||
+  negb (hop1_complete dl nograph croots q i) ||
   (* graph: false: no graphs of its own, no node in a project-wide graph *)
   (if class_nested c then existsb (fun x => memn x nograph) (q_roots q)
    else existsb (fun x => memn x nograph) (i_nodes i)).
@@ -165,15 +195,15 @@ Definition inverse_pairs_ok (r : run_t) : bool :=
     | _, _ => true
     end) r.
 
-Definition run_spec (w : world) (dl : nat -> list decl) (ex nograph : list nat) (r : run_t) : bool :=
+Definition run_spec (w : world) (dl : nat -> list decl) (ex nograph croots : list nat) (r : run_t) : bool :=
   let univ := nd (ex ++ flat_map (fun qi => i_nodes (snd qi)) r) in
-  negb (inverse_pairs_ok r) || existsb (fun qi => graph_spec w dl nograph univ (fst qi) (snd qi)) r.
+  negb (inverse_pairs_ok r) || existsb (fun qi => graph_spec w dl nograph univ croots (fst qi) (snd qi)) r.
 
-Definition spec_of (ws : world) (regs snograph : list nat) (runs : list run_t) : bool :=
+Definition spec_of (ws : world) (regs snograph croots : list nat) (runs : list run_t) : bool :=
   let tab := decl_table ws in
   let dl := tab_get tab in
-  let ex := existing ws dl regs in
-  existsb (run_spec ws dl ex snograph) runs.
+  let ex := existing ws dl (regs ++ croots) in
+  existsb (run_spec ws dl ex snograph croots) runs.
 
 Definition judge (c : case) : nat :=
   match c with
@@ -181,8 +211,8 @@ Definition judge (c : case) : nat :=
     let mm := negb (forallb (run_matches w regs) runs && labels_match w show labels) in
     let sp :=
       match gen with
-      | None => spec_of w regs nograph runs
-      | Some (ws, sregs, snograph) => spec_of ws sregs snograph runs
+      | None => spec_of w regs nograph [] runs
+      | Some (ws, sregs, snograph, croots) => spec_of ws sregs snograph croots runs
       end in
     verdict mm sp 0
   end.
@@ -191,18 +221,18 @@ Definition judge (c : case) : nat :=
 Definition detail (c : case) : list (nat * nat * bool * bool) :=
   match c with
   | (w, regs, nograph, show, labels, runs, gen) =>
-    let '(ws, sregs, snograph) :=
-      match gen with Some (ws, sregs, snograph) => (ws, sregs, snograph) | None => (w, regs, nograph) end in
+    let '(ws, sregs, snograph, croots) :=
+      match gen with Some g => g | None => (w, regs, nograph, []) end in
     let tab := decl_table ws in
     let dl := tab_get tab in
-    let ex := existing ws dl sregs in
+    let ex := existing ws dl (sregs ++ croots) in
     flat_map (fun kr =>
       let r := snd kr in
       let univ := nd (ex ++ flat_map (fun qi => i_nodes (snd qi)) r) in
       let gs := run w regs (map fst r) in
       flat_map (fun x =>
         let '(j, (qi, g)) := x in
-        let v := graph_spec ws dl snograph univ (fst qi) (snd qi) in
+        let v := graph_spec ws dl snograph univ croots (fst qi) (snd qi) in
         let mm := negb (same_graph g (snd qi)) in
         if mm || v then [(fst kr, j, mm, v)] else [])
         (combine (seq 0 (length r)) (combine r gs)))
@@ -216,7 +246,7 @@ Definition decl_eqb (a b : decl) : bool :=
 Definition decl_diff (a b : list decl) : list decl := filter (fun d => negb (existsb (decl_eqb d) b)) a.
 Definition relation_diff (c : case) : list (nat * list decl * list decl) :=
   match c with
-  | (w, _, _, _, _, _, Some (ws, _, _)) =>
+  | (w, _, _, _, _, _, Some (ws, _, _, _)) =>
     flat_map (fun ke =>
       let x := fst ke in
       let a := decl_diff (decls w x) (decls ws x) in
